@@ -20,7 +20,37 @@ a8 __real___tsan_atomic8_exchange(volatile a8* a, a8 v, int mo);
 int __real___tsan_atomic8_compare_exchange_strong(volatile a8* a, a8* c, a8 v, int mo, int fmo);
 int __real___tsan_atomic8_compare_exchange_weak(volatile a8* a, a8* c, a8 v, int mo, int fmo);
 
-enum { A_ATOMIC8 = 22 };
+typedef unsigned int a32;
+a32 __real___tsan_atomic32_load(const volatile a32* a, int mo);
+void __real___tsan_atomic32_store(volatile a32* a, a32 v, int mo);
+a32 __real___tsan_atomic32_exchange(volatile a32* a, a32 v, int mo);
+int __real___tsan_atomic32_compare_exchange_strong(volatile a32* a, a32* c, a32 v, int mo, int fmo);
+int __real___tsan_atomic32_compare_exchange_weak(volatile a32* a, a32* c, a32 v, int mo, int fmo);
+
+enum { A_ATOMIC8 = 22, A_ATOMIC32 = 24 };
+
+// 32-bit atomics: the global length limit is ada's only one (load/store). Reference counts of the C++ runtime
+// use fetch_add and are deliberately not wrapped.
+a32 __wrap___tsan_atomic32_load(const volatile a32* a, int mo) {
+  ada_verif_yield(A_ATOMIC32);
+  return __real___tsan_atomic32_load(a, mo);
+}
+void __wrap___tsan_atomic32_store(volatile a32* a, a32 v, int mo) {
+  ada_verif_yield(A_ATOMIC32);
+  __real___tsan_atomic32_store(a, v, mo);
+}
+a32 __wrap___tsan_atomic32_exchange(volatile a32* a, a32 v, int mo) {
+  ada_verif_yield(A_ATOMIC32);
+  return __real___tsan_atomic32_exchange(a, v, mo);
+}
+int __wrap___tsan_atomic32_compare_exchange_strong(volatile a32* a, a32* c, a32 v, int mo, int fmo) {
+  ada_verif_yield(A_ATOMIC32);
+  return __real___tsan_atomic32_compare_exchange_strong(a, c, v, mo, fmo);
+}
+int __wrap___tsan_atomic32_compare_exchange_weak(volatile a32* a, a32* c, a32 v, int mo, int fmo) {
+  ada_verif_yield(A_ATOMIC32);
+  return __real___tsan_atomic32_compare_exchange_weak(a, c, v, mo, fmo);
+}
 
 a8 __wrap___tsan_atomic8_load(const volatile a8* a, int mo) {
   ada_verif_yield(A_ATOMIC8);
